@@ -37,6 +37,7 @@ type Heap struct {
 	allocs    []int // sizes
 	objs      []*Obj
 	maps      []*MapObj
+	mapOf     map[*Obj]*MapObj
 	typeDescs map[string]*Ref
 }
 
@@ -286,6 +287,11 @@ func (m *Machine) Load(p Ptr, t types.Type) Val {
 		if c, ok := d.(*MapObj); ok {
 			return c
 		}
+		if p, ok := d.(Ptr); ok {
+			if mo, ok := m.heap.mapOf[p.obj]; ok && p.off == 0 {
+				return mo
+			}
+		}
 		endPath("MEMSAFETY", "map word is not a map")
 	}
 	endPath("UNSUPPORTED", "load of type %s", t)
@@ -381,7 +387,7 @@ func (m *Machine) Store(p Ptr, t types.Type, v Val) {
 		if c == nil {
 			m.storeRef(p, nil)
 		} else {
-			m.storeRef(p, &Ref{v: c})
+			m.storeRef(p, &Ref{v: Ptr{c.hdr, 0}})
 		}
 	default:
 		endPath("UNSUPPORTED", "store of type %s", t)
